@@ -1207,6 +1207,206 @@ def run_history(cfg):
 
 
 # ------------------------------------------------------------------------------------------
+# aliasing: arrays handed to constructors / arrays handed out by properties
+
+SNAP_P = ['shape', 'min_pt', 'max_pt', 'extent', 'mid_pt', 'cell_boundary_vecs', 'coord_vectors',
+          'cell_sizes_vecs', 'boundary_cell_fractions', 'nodes_on_bdry_byaxis', 'is_uniform']
+
+
+def snapshot(p):
+    """Every observable of the partition as comparable text (exceptions become text too)."""
+    out = {}
+
+    def rd(name, f):
+        try:
+            out[name] = _canon(f())
+        except Exception as e:       # noqa
+            out[name] = 'raises:' + type(e).__name__
+    for o in SNAP_P:
+        rd(o, lambda o=o: getattr(p, o))
+    for o in ('min_pt', 'max_pt'):
+        rd('set.' + o, lambda o=o: getattr(p.set, o))
+        rd('grid.' + o, lambda o=o: getattr(p.grid, o))
+    rd('grid.coord_vectors', lambda: p.grid.coord_vectors)
+    rd('grid.stride', lambda: p.grid.stride)
+    rd('cell_sides', lambda: p.cell_sides)
+    if p.ndim:
+        rd('index(first node)', lambda: p.index([float(v[0]) for v in p.coord_vectors]
+                                                 if p.ndim > 1 else float(p.coord_vectors[0][0])))
+        rd('index(last node, floating)',
+           lambda: p.index([float(v[-1]) for v in p.coord_vectors] if p.ndim > 1
+                           else float(p.coord_vectors[0][-1]), floating=True))
+    return out
+
+
+def snap_diff(s0, s1):
+    return [k for k in s0 if s0[k] != s1.get(k)]       # in the order of `snapshot`
+
+
+def _clobber(arrs, style):
+    """Overwrite caller-owned arrays in place.  -> number of arrays written."""
+    n = 0
+    for a in arrs:
+        if isinstance(a, (list, tuple)):
+            n += _clobber(a, style)
+        elif isinstance(a, np.ndarray) and a.flags.writeable and a.size:
+            if style == 'shift':
+                a += (3 if a.dtype.kind in 'iu' else 1.5)
+            elif a.dtype.kind == 'f':
+                a[...] = np.nan
+            else:
+                a[...] = 0
+            n += 1
+    return n
+
+
+def input_routes(cfg, reqref, dxs):
+    """[(route name, fresh-arguments factory, builder)]: every constructor argument that can be
+    an array is passed as a float64 (shape: int64) ndarray owned by the driver."""
+    nd = len(reqref)
+    lo = _fl(a.lo for a in reqref)
+    hi = _fl(a.hi for a in reqref)
+    vecs = [_fl(a.nodes) for a in reqref]
+    shp = [a.n for a in reqref]
+
+    def fresh():
+        return {'lo': np.array(lo, dtype='float64'), 'hi': np.array(hi, dtype='float64'),
+                'vecs': [np.array(v, dtype='float64') for v in vecs],
+                'glo': np.array([v[0] for v in vecs], dtype='float64'),
+                'ghi': np.array([v[-1] for v in vecs], dtype='float64'),
+                'shape': np.array(shp, dtype='int64')}
+    I, G, RPt = odl.IntervalProd, odl.RectGrid, odl.RectPartition
+    routes = [
+        ('RectPartition(IntervalProd(arr,arr),RectGrid(arrs))',
+         lambda a: RPt(I(a['lo'], a['hi']), G(*a['vecs']))),
+        ('uniform_partition_fromgrid(RectGrid(arrs),arr,arr)',
+         lambda a: odl.uniform_partition_fromgrid(G(*a['vecs']), min_pt=a['lo'], max_pt=a['hi'])),
+        ('nonuniform_partition(arrs,min_pt=arr,max_pt=arr)',
+         lambda a: odl.nonuniform_partition(*a['vecs'], min_pt=a['lo'], max_pt=a['hi'])),
+    ]
+    if cfg['kind'] == 'uni':
+        flags = nob_nested([(a[3], a[4]) for a in cfg['axes']])
+        cs = [1.0 if dx is None else float(dx) for dx in dxs]
+        routes += [
+            ('uniform_partition_fromintv(IntervalProd(arr,arr),arr)',
+             lambda a: odl.uniform_partition_fromintv(I(a['lo'], a['hi']), a['shape'],
+                                                      nodes_on_bdry=flags)),
+            ('uniform_partition(arr,arr,arr)',
+             lambda a: odl.uniform_partition(a['lo'], a['hi'], a['shape'], nodes_on_bdry=flags)),
+            ('RectPartition(IntervalProd(arr,arr),uniform_grid(arr,arr,arr))',
+             lambda a: RPt(I(a['lo'], a['hi']), odl.uniform_grid(a['glo'], a['ghi'], a['shape']))),
+        ]
+        if all(dx is None or dx > 0 for dx in dxs):
+            def fresh_cs(fresh=fresh):
+                d = fresh()
+                d['cs'] = np.array(cs, dtype='float64')
+                return d
+            routes += [
+                ('uniform_partition(min=arr,shape=arr,cell_sides=arr)',
+                 lambda a: odl.uniform_partition(min_pt=a['lo'], shape=a['shape'],
+                                                 cell_sides=a['cs'], nodes_on_bdry=flags),
+                 fresh_cs),
+                ('uniform_partition(max=arr,shape=arr,cell_sides=arr)',
+                 lambda a: odl.uniform_partition(max_pt=a['hi'], shape=a['shape'],
+                                                 cell_sides=a['cs'], nodes_on_bdry=flags),
+                 fresh_cs),
+                ('uniform_partition(arr,arr,cell_sides=arr)',
+                 lambda a: odl.uniform_partition(a['lo'], a['hi'], cell_sides=a['cs'],
+                                                 nodes_on_bdry=flags), fresh_cs),
+            ]
+    return [(r[0], r[1], r[2] if len(r) > 2 else fresh) for r in routes]
+
+
+def _getters():
+    def each(name, f):
+        return (name, f)
+    P = [each('RectPartition.' + o, lambda p, o=o: getattr(p, o))
+         for o in ('min_pt', 'max_pt', 'mid_pt', 'extent', 'cell_boundary_vecs', 'coord_vectors',
+                   'cell_sizes_vecs', 'cell_sides', 'meshgrid')]
+    P += [('RectPartition.min()', lambda p: p.min()), ('RectPartition.max()', lambda p: p.max()),
+          ('RectPartition.points()', lambda p: p.points())]
+    S = [each('IntervalProd.' + o, lambda p, o=o: getattr(p.set, o))
+         for o in ('min_pt', 'max_pt', 'mid_pt', 'extent')]
+    S += [('IntervalProd.min()', lambda p: p.set.min()), ('IntervalProd.max()', lambda p: p.set.max()),
+          ('IntervalProd.element()', lambda p: np.atleast_1d(p.set.element())),
+          ('IntervalProd.corners()', lambda p: p.set.corners())]
+    Gr = [each('RectGrid.' + o, lambda p, o=o: getattr(p.grid, o))
+          for o in ('coord_vectors', 'min_pt', 'max_pt', 'mid_pt', 'extent', 'stride', 'meshgrid')]
+    Gr += [('RectGrid.min()', lambda p: p.grid.min()), ('RectGrid.max()', lambda p: p.grid.max()),
+           ('RectGrid.points()', lambda p: p.grid.points()),
+           ('RectGrid.corners()', lambda p: p.grid.corners()),
+           ('RectGrid.element()', lambda p: p.grid.element())]
+    return P + S + Gr
+
+
+GETTERS = _getters()
+
+
+def check_aliasing(cfg, p0, reqref, exact, dxs, V):
+    """(a) arrays passed to the constructors are overwritten in place afterwards;
+    (b) every writeable array handed out by a property / method is overwritten.
+    In both cases the partition must stay what it was: same observables (exact), the model
+    comparison and every tiling clause still hold."""
+    what0 = 'request %s' % (cfg['axes'],)
+    for name, build, fresh in input_routes(cfg, reqref, dxs):
+        site = 'input_arrays[%s]' % name
+        args = fresh()
+        V.evals += 1
+        try:
+            q = build(args)
+        except Exception as e:       # noqa
+            V.add(site, 'raises:' + type(e).__name__, '%s: %r' % (what0, e))
+            continue
+        s0 = snapshot(q)
+        for style in ('shift', 'nan'):
+            nw = _clobber(list(args.values()), style)
+            V.evals += 1
+            s1 = snapshot(q)
+            d = snap_diff(s0, s1)
+            if d:
+                V.add(site, 'partition_changed_when_caller_overwrote_its_arrays',
+                      '%s; built, then the %d argument arrays overwritten in place (%s): %s '
+                      'changed from %s to %s' % (what0, nw, style, d[0], s0[d[0]], s1[d[0]]))
+            compare(q, reqref, exact, site, V, '%s after overwriting the arguments (%s)'
+                    % (what0, style))
+            invariants(q, site, V, '%s after overwriting the arguments (%s)' % (what0, style))
+        V.sigs.add('alias-in:%s' % name.split('(')[0])
+    # (b) arrays handed out
+    lo = _fl(a.lo for a in reqref)
+    hi = _fl(a.hi for a in reqref)
+    vecs = [_fl(a.nodes) for a in reqref]
+    ro = 0
+    for name, get in GETTERS:
+        q = odl.RectPartition(odl.IntervalProd(lo, hi), odl.RectGrid(*vecs))
+        if name.endswith('cell_sides') or name.endswith('stride'):
+            if not q.is_uniform:
+                V.skipped += 1
+                continue
+        site = 'returned_array[%s]' % name
+        s0 = snapshot(q)
+        V.evals += 1
+        try:
+            val = get(q)
+        except Exception as e:       # noqa
+            V.add(site, 'raises:' + type(e).__name__, '%s: %r' % (what0, e))
+            continue
+        arrs = list(val) if isinstance(val, (tuple, list)) else [val]
+        if not any(isinstance(a, np.ndarray) and a.flags.writeable for a in arrs):
+            ro += 1
+            continue
+        for style in ('shift', 'nan'):
+            _clobber(arrs, style)
+            s1 = snapshot(q)
+            d = snap_diff(s0, s1)
+            if d:
+                V.add(site, 'write_through',
+                      'partition {%s}: writing into the array returned by %s (%s) changed %s '
+                      'from %s to %s' % (describe(reqref), name, style, d[0], s0[d[0]], s1[d[0]]))
+                break
+    V.sigs.add('alias-out:readonly=%d' % ro)
+
+
+# ------------------------------------------------------------------------------------------
 # the bounded space
 
 def _uni_axes():
@@ -1277,9 +1477,15 @@ def configs(tier):
     G1 = ['getitem2'] if thorough else ['getitem']
     # 1-d: the full per-axis alphabets
     for a in U:
-        bases.append(('uni', [a], RP + G1))
+        bases.append(('uni', [a], RP + G1 + ['alias']))
     for a in N:
-        bases.append(('non', [a], RP + G1))
+        bases.append(('non', [a], RP + G1 + ['alias']))
+    for t in (_star(U, UNI_SMALL, 2) if thorough else _prod(UNI_SMALL, 2)):
+        bases.append(('uni', t, ['alias']))
+    for t in (_star(N, NON_SMALL, 2) if thorough else _prod(NON_SMALL, 2)):
+        bases.append(('non', t, ['alias']))
+    for t in _prod(UNI_SMALL[:3] if thorough else UNI_SMALL[:2], 3):
+        bases.append(('uni', t, ['alias']))
     if thorough:
         # 2-d
         for t in _prod(U, 2):
@@ -1387,6 +1593,9 @@ def run(cfg):
         nch, ng = explore_getitem(p, ref, site, V, full2=bool(cfg.get('full2')),
                                   points_star=(nd >= 2))
         return V.result(sample={'distinct_children': nch, 'distinct_grandchildren': ng})
+    elif w == 'alias':
+        req = uni_ref(cfg['axes'])[0] if cfg['kind'] == 'uni' else non_ref(cfg['axes'])
+        check_aliasing(cfg, p, req, exact, dxs, V)
     elif w == 'ops':
         others = [[POOL[i]] for i in range(len(POOL))] + [[POOL[2], POOL[1]]]
         check_ops(p, ref, V, others, thorough=(nd <= 2))
@@ -1431,7 +1640,12 @@ def meta(tier):
                 'index expression of the alphabet, then from every distinct child the '
                 'invariants, the point check and a second round of index expressions (depth 2). '
                 'ops: insert/append/squeeze/byaxis with all positions / axis subsets / axis '
-                'sequences. history: one RectGrid object (incl. 1-point axes) shared by 2-3 '
+                'sequences. alias: every constructor argument that may be an array is passed '
+                'as a float64/int64 ndarray and overwritten in place afterwards (+= and NaN); '
+                'every writeable array returned by a property or method of the partition, its '
+                'set and its grid is overwritten; the snapshot of all observables must stay '
+                'identical and the model comparison and invariants must still hold. '
+                'history: one RectGrid object (incl. 1-point axes) shared by 2-3 '
                 'partitions of different sets (uniform_partition_fromgrid / RectPartition(set, '
                 'p.grid)); every sequence of readings (8 partition observables per partition, 3 '
                 'grid observables) up to depth 2 (depth 3 on 4 observables, thorough); each '
